@@ -7,7 +7,6 @@ Record pkgref := mkRef { r_func : string; r_pkg : string; r_sel : string; r_call
 Record site := mkSite { s_func : string; s_callee : string; s_arg : string; s_guards : list string }.
 
 Definition sensitive_refs : list pkgref := [
-  mkRef "interp.flushStream" "os" "Create" true;
   mkRef "interp.setExecuteConfig" "os" "Environ" true;
   mkRef "(package level)" "os" "File" false;
   mkRef "(package level)" "os" "FileMode" false;
